@@ -7,6 +7,7 @@ mod m_striptrim;
 mod m_sliceindex;
 mod m_strindex;
 mod m_parser;
+mod m_cmp;
 
 use common::*;
 use rand::{rngs::SmallRng, SeedableRng};
@@ -19,6 +20,7 @@ fn replay_line(s: &mut Summary, v: &V) {
         "SliceIndex" => m_sliceindex::replay(s, v),
         "StrIndex" => m_strindex::replay(s, v),
         "Parser" => m_parser::replay(s, v),
+        "Cmp" => m_cmp::replay(s, v),
         m => panic!("kh: unknown module {m}"),
     }
 }
@@ -66,6 +68,7 @@ fn main() {
                 "SliceIndex" => m_sliceindex::record(&mut rng, n, &mut out),
                 "StrIndex" => m_strindex::record(&mut rng, n, &mut out),
                 "Parser" => m_parser::record(&mut rng, n, &mut out),
+                "Cmp" => m_cmp::record(&mut rng, n, &mut out),
                 m => panic!("kh: unknown module {m}"),
             }
             out.flush().unwrap();
